@@ -163,7 +163,8 @@ def normalise(node, defs, d, indices=None, tuples=True):
     if "logical" in n:
         from . import logical
 
-        return logical.normalise(n, d)
+        if logical.active(n):  # an unknown annotation, or a known one on the wrong base type, is ignored
+            return logical.normalise(n, d)
     if k in ("null", "boolean", "int", "long", "string", "enum", "fixed"):
         return d
     if k == "double":
